@@ -1,5 +1,5 @@
 (* C12  Incrementally maintained workspace view equals a rebuild. *)
-From HL Require Import Lib.Bytes Model.WsIndex Proofs.WsIndexProofs.
+From HL Require Import Lib.Bytes Model.WsIndex Proofs.WsIndexProofs Proofs.WsTemplates.
 Open Scope N_scope.
 
 (* After ANY sequence of SetFileIndex / RemoveFile operations (any number of files, any
@@ -18,11 +18,42 @@ Theorem C12_decrement_exact : forall k l m, NoDup (keys m) ->
 Proof. exact fold_cdec. Qed.
 Print Assumptions C12_decrement_exact.
 
-(* The payee-template table is NOT a function of the current files: two files share a payee,
-   one drops it, the template disappears although the other file still provides it. *)
-Theorem C12_templates_refuted :
-  let w := wrun shared_payee_witness in
-  cget (bs "Pshop") (wi_counts w) = 1 /\ wi_templates w = [] /\
-  (exists f, file_get (bs "root") (wi_files w) = Some f /\ fi_templates f = [bs "shop"]).
-Proof. exact templates_refuted. Qed.
-Print Assumptions C12_templates_refuted.
+(* The payee-template table is rebuilt from the indexed files after every operation ... *)
+Theorem C12_templates_are_rebuilt : forall ops,
+  wi_templates (wrun ops) = build_templates (wi_files (wrun ops)).
+Proof. exact templates_are_rebuilt. Qed.
+Print Assumptions C12_templates_are_rebuilt.
+
+(* ... and the rebuild does not depend on the order in which the files are enumerated: two
+   enumerations of the same file map give the same table *)
+Theorem C12_templates_function_of_files : forall fs1 fs2,
+  NoDup (map fst fs1) -> NoDup (map fst fs2) ->
+  (forall p, file_get p fs1 = file_get p fs2) -> build_templates fs1 = build_templates fs2.
+Proof. exact build_templates_function_of_files. Qed.
+Print Assumptions C12_templates_function_of_files.
+
+(* a payee has a template exactly when one of the indexed files provides one (what the index
+   used to get wrong: a shared payee lost its template when ONE file dropped it) *)
+Theorem C12_template_present_iff : forall fs k, NoDup (map fst fs) ->
+  (alookup k (build_templates fs) <> None <->
+   exists p f, file_get p fs = Some f /\ alookup k (fi_templates f) <> None).
+Proof. exact template_present_iff. Qed.
+Print Assumptions C12_template_present_iff.
+
+(* The statement of C12 for the index: ANY two histories (in particular an incremental one and
+   a fresh build, in any file order) that end with the same files have the same template table
+   and the same value of every aggregated counter. *)
+Theorem C12_view_function_of_files : forall ops1 ops2,
+  (forall p, file_get p (wi_files (wrun ops1)) = file_get p (wi_files (wrun ops2))) ->
+  wi_templates (wrun ops1) = wi_templates (wrun ops2) /\
+  forall k, cget k (wi_counts (wrun ops1)) = cget k (wi_counts (wrun ops2)).
+Proof. exact view_function_of_files. Qed.
+Print Assumptions C12_view_function_of_files.
+
+(* non-vacuity, and the history that used to fail: root and sub share payee 'shop', sub drops
+   it; the payee is still counted once and root's template is still there *)
+Theorem C12_shared_payee_keeps_template :
+  let w := wrun shared_payee_history in
+  cget (bs "Pshop") (wi_counts w) = 1 /\ wi_templates w = [(bs "shop", 7)].
+Proof. exact shared_payee_keeps_template. Qed.
+Print Assumptions C12_shared_payee_keeps_template.
